@@ -48,7 +48,8 @@ RULE = (
     "every herm class may carry a functools.cached_property and an own or inherited __getattr__ (slotted classes then get "
     "the generated __getattr__ script: its loads, source entry and missing-attribute lookups are observed like the other "
     "methods'). hist: 1-6 definitions -- a third of them twins (same qualname and body) of an earlier one, a quarter refused "
-    "AFTER code generation by an inherited __attrs_init_subclass__, a base __init_subclass__ or a metaclass -- over qualnames C, C-1, C-2, C-1-1, D x 11 bodies (two with identical source, one whose source "
+    "AFTER code generation by an inherited __attrs_init_subclass__, a base __init_subclass__ or a metaclass and 4 of the 15 bodies slotted with a cached property (second script: the nested __getattr__, with or without an own "
+    "__getattr__, so twins' getattr scripts differ while their methods scripts coincide or not) -- over qualnames C, C-1, C-2, C-1-1, D x 11 bodies (two with identical source, one whose source "
     "embeds the qualname) x pre-seeded foreign entries on colliding filenames; conc: 2-4 threads x bodies x schedules "
     "(exhaustive over 2 threads x <=4 operations, random above). non-trivial = herm: at least one field-derived helper name "
     "is loaded; hist/conc: at least two definitions contend for one filename. distinct = distinct JSON case"
@@ -80,7 +81,11 @@ LEVEL_TEXT = (
     "C17_later_definitions_keep_entries (further definitions, refused ones included, never disturb an existing class's "
     "entry), C17_loop_terminates (candidate filenames are pairwise different, pigeonhole), C17_unique_entry (sequential histories "
     "of any length: every definition gets a code object whose filename maps to its own script), "
-    "C17_nonatomic_counterexample (decided schedule for look-then-store), C17_cache_model_meets_spec. Naming affixes, "
+    "C17_nonatomic_counterexample (decided schedule for look-then-store), C17_cache_model_meets_spec (both scripts of a "
+    "definition: the methods script and the cached-property __getattr__ script are histories over the same transition "
+    "system; the getattr filenames are predicted for sequential histories, only judged by the spec in concurrent runs; for "
+    "every generated function reachable from a class, nested code objects and closures included, co_filename must be an "
+    "entry holding the text it was compiled from -- observed). Naming affixes, "
     "fixed helper names and merge orders are read from the current source (T1), so these theorems are re-checked against "
     "what the code says now; decided counterexamples for the repaired old scheme (K17a, K17b) are in Proofs/C17OldScheme. "
     "The model is tied to /repo by a differential correspondence: name-resolution table of the real "
@@ -393,7 +398,13 @@ _MOD = itertools.count()
 
 
 def cache_case(kind, defs, pre, sched, cfg):
-    return {"kind": kind, "modul": "c17h", "defs": [dict(d, script=CC.script_id(d["body"], d["qual"])) for d in defs],
+    def full(d):
+        d = dict(d, script=CC.script_id(d["body"], d["qual"]))
+        if CC.gscript_id(d["body"]) is not None:
+            d["gscript"] = CC.gscript_id(d["body"])
+        return d
+
+    return {"kind": kind, "modul": "c17h", "defs": [full(d) for d in defs],
             "pre": pre, "sched": sched, "cfg": cfg}
 
 
@@ -438,6 +449,19 @@ def gen_cache_fixed():
                                   {"qual": "C-1", "body": 4}, {"qual": "C", "body": 5}, {"qual": "C-1-1", "body": 6}], [], [], cfg)
         yield cache_case("hist", [{"qual": "C", "body": 8}, {"qual": "C", "body": 8}, {"qual": "C-1", "body": 8},
                                   {"qual": "C", "body": 0}], [["C", [0, 900]], ["C", [2, 901]]], [], cfg)
+    # same-qualname twins of slotted classes with cached properties whose __getattr__ scripts differ (own __getattr__ or
+    # not), same or different methods script, refused twins in between: every class's nested __getattr__ must point
+    # at its own entry
+    for cfg in cfgs:
+        yield cache_case("hist", [{"qual": "C", "body": 11}, {"qual": "C", "body": 12}, {"qual": "C", "body": 13},
+                                  {"qual": "C", "body": 14}, {"qual": "C", "body": 11}], [], [], cfg)
+        yield cache_case("hist", [{"qual": "C", "body": 12}, {"qual": "C", "body": 0}, {"qual": "C", "body": 11},
+                                  {"qual": "C", "body": 12, "fails": True, "failHow": "init_subclass"},
+                                  {"qual": "C-1", "body": 14}, {"qual": "C-1", "body": 13}], [], [], cfg)
+        yield cache_case("hist", [{"qual": "C-1", "body": 11}, {"qual": "C-1", "body": 12},
+                                  {"qual": "C", "body": 14}, {"qual": "C", "body": 13}], [["C", [0, 900]]], [], cfg)
+        yield cache_case("conc", [{"qual": "C", "body": 11}, {"qual": "C", "body": 12}, {"qual": "C", "body": 13}], [],
+                         [2, 1, 0, 0, 1], cfg)
     # refused twins: a same-qualname, same-body definition is refused after code generation (each mechanism), before,
     # between and after successful definitions; every earlier class must keep its entries
     for cfg in cfgs + [{"api": "class", "slots": True}]:
@@ -472,8 +496,9 @@ def gen_cases(tier, rng):
     yield from catalogue(rng)
     fixed = list(gen_cache_fixed())
     if tier == "quick":
-        keep = [c for c in fixed if any(d.get("fails") for d in c["defs"])]
-        rest = [c for c in fixed if not any(d.get("fails") for d in c["defs"])]
+        special = lambda c: any(d.get("fails") or d.get("gscript") is not None for d in c["defs"])  # noqa: E731
+        keep = [c for c in fixed if special(c)]
+        rest = [c for c in fixed if not special(c)]
         rng.shuffle(rest)
         fixed = keep + rest[:100]
     yield from fixed
@@ -592,6 +617,8 @@ def observe(case):
     ren = lambda s: s.replace(real["modul"], case["modul"]) if isinstance(s, str) else s  # noqa: E731
     obs["files"] = [ren(f) for f in obs["files"]]
     obs["entries"] = [[ren(k), v] for k, v in obs["entries"]]
+    obs["gfiles"] = [ren(f) for f in obs["gfiles"]]
+    obs["gentries"] = [[ren(k), v] for k, v in obs["gentries"]]
     return obs
 
 
@@ -628,6 +655,8 @@ def dist(case, obs):
         }
     return {"kind": case["kind"], "n_defs": len(case["defs"]), "n_pre": len(case["pre"]),
             "refused": sum(1 for d in case["defs"] if d.get("fails")),
+            "getattr_scripts": sum(1 for d in case["defs"] if d.get("gscript") is not None),
+            "distinct_gfiles": len(set(obs.get("gfiles", []))) if isinstance(obs, dict) else "?",
             "refused_twin": sum(1 for i, d in enumerate(case["defs"]) if d.get("fails") and any(
                 e["qual"] == d["qual"] and e["script"] == d["script"] and not e.get("fails") for e in case["defs"][:i])),
             "sched_len": len(case["sched"]), "realised": obs.get("realised") if isinstance(obs, dict) else "?",
